@@ -67,7 +67,7 @@ PROPS = {
     },
     "C03": {
         "lean": ["Seccomp.Proofs.C03"],
-        "streams": [policy_stream("conds", 1500, 15000, corpus="policy", seeds=2)],
+        "streams": [policy_stream("conds", 1500, 15000, corpus="policy", seeds=2), policy_stream("long", 150, 1500, corpus="policy", seeds=2)],
         "trusted": CBPF_TRUST,
         "assumptions": [],
     },
